@@ -141,6 +141,19 @@ Theorem mixed_collection_addressing :
       (forall j k, n <= j < Wg -> In k order -> get_key k (nth j gath []) = Some (tl k)).
 Proof. exact SynclibP.mixed_collection_addressing. Qed.
 
+(* when the traversal keys are distinct, the gathered dicts are exactly the dicts of ideal values in
+   traversal order (slot j < n: rank j's values; other slots: the fillers) *)
+Theorem mixed_collection_exact :
+  forall (g : list nat) (dst : option nat) (Wg : nat) (mds : nat -> mdict) (order : list key)
+         (iv : key -> nat -> gs) (tl : key -> gs),
+    let n := List.length g in
+    n <= Wg -> NoDup order ->
+    (forall k, In k order -> exists ss, (forall i, i < n -> lookup2 (mds i) k = Some (ss i)) /\
+                                        ideal_family g dst Wg ss (iv k) (tl k)) ->
+    run_all (respond g) (map (fun i => sync_states dst i Wg (mds i) order) (seq 0 n))
+    = Some (map (fun i => Ok (if receives dst i then Some (ideal_gath n Wg order iv tl) else None)) (seq 0 n)).
+Proof. exact SynclibP.mixed_collection_exact. Qed.
+
 (* non-vacuity: three ranks, two metrics with a tensor, an object, a list (one rank empty, uneven
    lengths) and a dict state; rank 1 receives *)
 Definition ex_md (i : nat) : mdict :=
@@ -216,6 +229,7 @@ Print Assumptions list_sync_lossless.
 Print Assumptions dict_sync_lossless_same_keys.
 Print Assumptions ideal_family_instances.
 Print Assumptions mixed_collection_addressing.
+Print Assumptions mixed_collection_exact.
 Print Assumptions list_all_empty_refuted.
 Print Assumptions dict_unequal_keys_refuted.
 Print Assumptions subgroup_root_refuted.
